@@ -4,6 +4,7 @@
 import AuthProofs.StateInventory
 import AuthProofs.Chain
 import AuthProofs.CodeEquiv
+import AuthProofs.CodeEquivCheck
 namespace AuthProps.C08
 open AuthModel AuthModel.Str
 
@@ -91,6 +92,77 @@ example : Code.matches_ {} { Header := B "X-Tenant", Criteria := .Equality (B "a
 /-- NO HIDDEN STATE: trigger rules and chain selection are functions of the request and the configuration: the regenerated inventory of internal/server shows no mutable field in ExtAuthZFilter and no package-level variable besides the two response constructors. -/
 theorem no_hidden_state : FilterInventory := filter_inventory
 
+/-! ### `ExtAuthZFilter.Check` as translated from /repo on this run -/
+
+/-- `Check` AS TRANSLATED FROM THE GO SOURCE is the functional specification `checkSpec` - for every filter object,
+    request and handler behaviour, panics of the Go code included (they are `.error` on both sides). -/
+theorem code_check_eq_spec (env : Go.Env) (h : Pb.Handlers) (e : Pb.ExtAuthZFilter) (req : Pb.CheckRequest) :
+    Code.Check env h e req = checkSpec env h e req := code_check env h e req
+
+/-- On the translated code: a request the trigger rules do not select is allowed at once, no chain being consulted. -/
+theorem code_untriggered_allowed (env : Go.Env) (h : Pb.Handlers) (e : Pb.ExtAuthZFilter) (req : Pb.CheckRequest)
+    (he : e.isNil = false) (hc : e.cfg.isNil = false)
+    (ht : mustTrigger (reOf env) (e.cfg.TriggerRules.map ruleOf) (httpOf req).GetPath = false) :
+    Code.Check env h e req = .ok (Code.allow, {}) := by
+  rw [code_check]; simp [checkSpec, he, hc, ht]
+
+/-- On the translated code: the FIRST chain, in configuration order, whose criterion the request satisfies judges it,
+    and the chains after it are never consulted (the answer does not mention `post`): it is allowed at once when the
+    chain has no filters, otherwise the answer is that of the chain's filter loop started on an empty response. -/
+theorem code_first_match_wins (env : Go.Env) (h : Pb.Handlers) (e : Pb.ExtAuthZFilter) (req : Pb.CheckRequest)
+    (pre post : List Pb.FilterChain) (c : Pb.FilterChain)
+    (he : e.isNil = false) (hcfg : e.cfg.isNil = false) (hch : e.cfg.Chains = pre ++ c :: post)
+    (ht : mustTrigger (reOf env) (e.cfg.TriggerRules.map ruleOf) (httpOf req).GetPath = true)
+    (hpre : ∀ x ∈ pre, x.isNil = false ∧ chainMatches (matchOf x.Match) (httpOf req).GetHeaders = false)
+    (hc : c.isNil = false ∧ chainMatches (matchOf c.Match) (httpOf req).GetHeaders = true) :
+    Code.Check env h e req =
+      if c.Filters.length == 0 then .ok (Code.allow, {}) else runFiltersPb h req c.Filters Pb.CheckResponse.new := by
+  rw [code_check]
+  simp only [checkSpec, he, hcfg, ht, hch, runChainsPb_first_match env h req pre post c hpre hc, chainStepPb, hc.1, hc.2,
+    Bool.not_true, Bool.false_eq_true, if_false]
+  by_cases hl : (c.Filters.length == 0) = true
+  · simp [hl]
+  · simp only [hl, if_false]
+    cases runFiltersPb h req c.Filters Pb.CheckResponse.new <;> rfl
+
+/-- On the translated code: when no chain's criterion is satisfied the request is denied with PermissionDenied
+    "no chains matched", unless unmatched requests are explicitly allowed. -/
+theorem code_default_deny (env : Go.Env) (h : Pb.Handlers) (e : Pb.ExtAuthZFilter) (req : Pb.CheckRequest)
+    (he : e.isNil = false) (hcfg : e.cfg.isNil = false)
+    (ht : mustTrigger (reOf env) (e.cfg.TriggerRules.map ruleOf) (httpOf req).GetPath = true)
+    (hcs : ∀ x ∈ e.cfg.Chains, x.isNil = false ∧ chainMatches (matchOf x.Match) (httpOf req).GetHeaders = false) :
+    Code.Check env h e req =
+      .ok (if e.cfg.AllowUnmatchedRequests then (Code.allow, {}) else (Code.deny 7 (B "no chains matched"), {})) := by
+  rw [code_check]
+  simp [checkSpec, he, hcfg, ht, runChainsPb_none env h req e.cfg.Chains hcs]
+
+/-- On the translated code: evaluation of the judging chain stops at the first filter that does not allow - its response
+    (or, when the handler or its construction failed, the error without a verdict) is returned as it is and the filters
+    after it are not run (the answer does not mention `post`). -/
+theorem code_stops_at_first_denial (h : Pb.Handlers) (req : Pb.CheckRequest) (pre post : List Pb.Filter) (f : Pb.Filter)
+    (r r' : Pb.CheckResponse) (res : Pb.CheckResponse × Go.Error)
+    (hpre : AllAllowPb h req pre r r') (hf : filterStepPb h req f r' = .ok (.inl res)) :
+    runFiltersPb h req (pre ++ f :: post) r = .ok res :=
+  runFiltersPb_stops h req pre post f r r' res hpre hf
+
+/-- On the translated code: when every filter of the judging chain allows, the answer is the response they accumulated. -/
+theorem code_all_allow (h : Pb.Handlers) (req : Pb.CheckRequest) (fs : List Pb.Filter) (r r' : Pb.CheckResponse)
+    (hall : AllAllowPb h req fs r r') : runFiltersPb h req fs r = .ok (r', {}) :=
+  runFiltersPb_all h req fs r r' hall
+
+/- Non-vacuity, evaluated by the kernel on the translated `Check`: two chains (criterion x-app = a / no criterion), mock
+   handlers that set the status they are configured with. -/
+def mockHandlers : Pb.Handlers :=
+  { newMock := fun m => { isNil := false, process := fun _ r => ({ r with Status := { Code := if m.GetAllow then 0 else 7 } }, {}) },
+    newOIDC := fun _ => ({ isNil := true }, { isNil := false }) }
+def twoChains : Pb.ExtAuthZFilter :=
+  { cfg := { Chains := [{ Name := B "a", Match := { Header := B "x-app", Criteria := .Equality (B "a") },
+                           Filters := [{ Type_ := .Mock ⟨{ Allow := true }⟩ }, { Type_ := .Mock ⟨{ Allow := false }⟩ }] },
+                        { Name := B "rest", Filters := [{ Type_ := .Mock ⟨{ Allow := true }⟩ }] }] } }
+def reqWithHeader (v : Str) : Pb.CheckRequest := { Attributes := { Request := { Http := { Path := B "/p", Headers := [(B "x-app", v)] } } } }
+example : (Code.Check {} mockHandlers twoChains (reqWithHeader (B "a"))).map (fun r => (r.1.Status.Code, r.2.isNil)) = .ok (7, true) := by decide
+example : (Code.Check {} mockHandlers twoChains (reqWithHeader (B "b"))).map (fun r => (r.1.Status.Code, r.2.isNil)) = .ok (0, true) := by decide
+
 end AuthProps.C08
 
 #print axioms AuthProps.C08.check_eq_judge
@@ -105,3 +177,9 @@ end AuthProps.C08
 #print axioms AuthProps.C08.untriggered_allowed
 #print axioms AuthProps.C08.code_matches_spec
 #print axioms AuthProps.C08.no_hidden_state
+#print axioms AuthProps.C08.code_check_eq_spec
+#print axioms AuthProps.C08.code_untriggered_allowed
+#print axioms AuthProps.C08.code_first_match_wins
+#print axioms AuthProps.C08.code_default_deny
+#print axioms AuthProps.C08.code_stops_at_first_denial
+#print axioms AuthProps.C08.code_all_allow
